@@ -1,5 +1,413 @@
-(* C10 — lemmas about the packing codecs of Model.v. *)
+(* C10 — lemmas about the PackedDeltas codec of Model.v (writer run segmentation, bytes, reader). *)
 From Coq Require Import ZArith Lia List Bool.
+From Coq Require Import ZifyBool.
 From FV Require Import Lib.RustInt C10.Model.
 Import ListNotations.
 Open Scope Z_scope.
+Ltac Zify.zify_post_hook ::= Z.div_mod_to_equations.
+
+Definition i32 (z : Z) : Prop := -2147483648 <= z <= 2147483647.
+
+(* a value fits the storage class of a run *)
+Definition fits (t : rtype) (v : Z) : Prop :=
+  match t with
+  | RZero => v = 0
+  | RI8 => -128 <= v <= 127
+  | RI16 => -32768 <= v <= 32767
+  | RI32 => i32 v
+  end.
+
+(* well-formed run: legal length, values representable in the run's storage class *)
+Definition run_ok (r : run) : Prop :=
+  (1 <= run_len r <= 64)%nat /\ Forall (fits (run_type r)) (run_vals r) /\ length (run_vals r) = run_len r.
+
+(* ---------- generic helpers ---------- *)
+Lemma sweep (P : Z -> bool) (n : nat) :
+  forallb P (map Z.of_nat (seq 0 n)) = true -> forall z, 0 <= z < Z.of_nat n -> P z = true.
+Proof.
+  intros H z Hz. rewrite forallb_forall in H. apply H.
+  apply in_map_iff. exists (Z.to_nat z). split; [lia|]. apply in_seq. lia.
+Qed.
+
+Lemma land_shiftl_low hi b k : 0 <= k -> 0 <= b < 2 ^ k -> Z.land (Z.shiftl hi k) b = 0.
+Proof.
+  intros Hk Hb. apply Z.bits_inj'. intros n Hn. rewrite Z.land_spec, Z.bits_0.
+  destruct (Z.ltb_spec n k).
+  - rewrite Z.shiftl_spec_low by lia. reflexivity.
+  - destruct (Z.eq_dec b 0) as [->|Hb0]; [rewrite Z.bits_0; apply andb_false_r|].
+    rewrite (Z.bits_above_log2 b n); [apply andb_false_r|lia|].
+    assert (2 ^ k <= 2 ^ n) by (apply Z.pow_le_mono_r; lia).
+    apply Z.log2_lt_pow2; lia.
+Qed.
+
+Lemma lor_shiftl_low hi b k : 0 <= k -> 0 <= b < 2 ^ k -> Z.lor (Z.shiftl hi k) b = hi * 2 ^ k + b.
+Proof.
+  intros Hk Hb.
+  rewrite <- Z.lxor_lor by (apply land_shiftl_low; assumption).
+  rewrite <- Z.add_nocarry_lxor by (apply land_shiftl_low; assumption).
+  rewrite Z.shiftl_mul_pow2 by lia. reflexivity.
+Qed.
+
+(* ---------- control byte ---------- *)
+Lemma flag_facts (n : Z) : 0 <= n < 64 ->
+  (Z.land n 63 + 1 = n + 1 /\ rtype_of_control n = RI8 /\ 0 <= n < 256) /\
+  (Z.land (Z.lor n 64) 63 + 1 = n + 1 /\ rtype_of_control (Z.lor n 64) = RI16 /\ 0 <= Z.lor n 64 < 256) /\
+  (Z.land (Z.lor n 128) 63 + 1 = n + 1 /\ rtype_of_control (Z.lor n 128) = RZero /\ 0 <= Z.lor n 128 < 256) /\
+  (Z.land (Z.lor (Z.lor n 64) 128) 63 + 1 = n + 1 /\ rtype_of_control (Z.lor (Z.lor n 64) 128) = RI32
+   /\ 0 <= Z.lor (Z.lor n 64) 128 < 256).
+Proof.
+  intros H.
+  set (rt_eqb := fun a b : rtype => match a, b with RZero, RZero | RI8, RI8 | RI16, RI16 | RI32, RI32 => true | _, _ => false end).
+  pose (P := fun n : Z =>
+    (Z.land n 63 + 1 =? n + 1) && rt_eqb (rtype_of_control n) RI8 && (0 <=? n) && (n <? 256) &&
+    (Z.land (Z.lor n 64) 63 + 1 =? n + 1) && rt_eqb (rtype_of_control (Z.lor n 64)) RI16
+      && (0 <=? Z.lor n 64) && (Z.lor n 64 <? 256) &&
+    (Z.land (Z.lor n 128) 63 + 1 =? n + 1) && rt_eqb (rtype_of_control (Z.lor n 128)) RZero
+      && (0 <=? Z.lor n 128) && (Z.lor n 128 <? 256) &&
+    (Z.land (Z.lor (Z.lor n 64) 128) 63 + 1 =? n + 1) && rt_eqb (rtype_of_control (Z.lor (Z.lor n 64) 128)) RI32
+      && (0 <=? Z.lor (Z.lor n 64) 128) && (Z.lor (Z.lor n 64) 128 <? 256)).
+  assert (HP : P n = true).
+  { apply (sweep P 64); [vm_compute; reflexivity | lia]. }
+  unfold P in HP. repeat rewrite andb_true_iff in HP.
+  assert (Hrt : forall a b, rt_eqb a b = true -> a = b) by (intros [] []; cbn; congruence).
+  repeat match goal with H : _ /\ _ |- _ => destruct H end.
+  repeat match goal with H : rt_eqb _ _ = true |- _ => apply Hrt in H end.
+  repeat split; try assumption; lia.
+Qed.
+
+Lemma run_flag_decodes r : (1 <= run_len r <= 64)%nat ->
+  count_of_control (run_flag r) = run_len r /\ rtype_of_control (run_flag r) = run_type r /\ 0 <= run_flag r < 256.
+Proof.
+  intros H.
+  destruct r as [n|l|l|l]; cbn [run_len run_flag run_type] in *;
+    match goal with |- context [Z.of_nat ?k - 1] =>
+      destruct (flag_facts (Z.of_nat k - 1) ltac:(lia)) as ((A1 & A2 & A3) & (B1 & B2 & B3) & (C1 & C2 & C3) & (D1 & D2 & D3))
+    end; unfold count_of_control.
+  - rewrite C1. repeat split; try assumption; lia.
+  - rewrite A1. repeat split; try assumption; lia.
+  - rewrite B1. repeat split; try assumption; lia.
+  - rewrite D1. repeat split; try assumption; lia.
+Qed.
+
+(* ---------- one value through writer and reader ---------- *)
+Lemma to_be_2 z : to_be 2 z = [(z / 256) mod 256; z mod 256].
+Proof.
+  cbn [to_be Z.of_nat Pos.of_succ_nat Pos.succ].
+  change (256 ^ 1) with 256. change (256 ^ 0) with 1. rewrite Z.div_1_r. reflexivity.
+Qed.
+
+Lemma to_be_4 z : to_be 4 z = [(z / 16777216) mod 256; (z / 65536) mod 256; (z / 256) mod 256; z mod 256].
+Proof.
+  cbn [to_be Z.of_nat Pos.of_succ_nat Pos.succ].
+  change (256 ^ 3) with 16777216. change (256 ^ 2) with 65536.
+  change (256 ^ 1) with 256. change (256 ^ 0) with 1. rewrite Z.div_1_r. reflexivity.
+Qed.
+
+Lemma read_enc_val t v rest : fits t v -> read_val t (enc_val t v ++ rest) = Some (v, rest).
+Proof.
+  intros Hf. destruct t; cbn [fits] in Hf.
+  - subst. reflexivity.
+  - cbn [enc_val app read_val]. do 2 f_equal.
+    unfold wrap_s, wrap_u. change (2 ^ 8) with 256. change (2 ^ (8 - 1)) with 128. lia.
+  - cbn [enc_val]. rewrite to_be_2. cbn [app read_val]. do 2 f_equal.
+    unfold from_be. cbn [from_be_acc].
+    unfold wrap_s, wrap_u. change (2 ^ 16) with 65536. change (2 ^ (16 - 1)) with 32768. lia.
+  - cbn [enc_val]. rewrite to_be_4. cbn [app read_val]. do 2 f_equal.
+    unfold from_be. cbn [from_be_acc]. unfold i32 in Hf.
+    unfold wrap_s, wrap_u. change (2 ^ 32) with 4294967296. change (2 ^ (32 - 1)) with 2147483648. lia.
+Qed.
+
+Lemma enc_val_length t v : length (enc_val t v) = rtype_size t.
+Proof. destruct t; cbn [enc_val rtype_size]; try reflexivity; apply to_be_length. Qed.
+
+Lemma flat_enc_length t l : length (flat_map (enc_val t) l) = (length l * rtype_size t)%nat.
+Proof.
+  induction l as [|v l IH]; [reflexivity|].
+  cbn [flat_map length]. rewrite app_length, enc_val_length, IH. lia.
+Qed.
+
+Lemma enc_val_bytes t v : Forall is_byte (enc_val t v).
+Proof.
+  destruct t; cbn [enc_val].
+  - constructor.
+  - constructor; [|constructor]. unfold is_byte, wrap_u. change (2 ^ 8) with 256. lia.
+  - apply to_be_bytes.
+  - apply to_be_bytes.
+Qed.
+
+(* ---------- one run through the reader ---------- *)
+Lemma enc_run_shape r : enc_run r = run_flag r :: flat_map (enc_val (run_type r)) (run_vals r).
+Proof.
+  destruct r as [n|l|l|l]; try reflexivity.
+  assert (H : forall k, flat_map (enc_val RZero) (repeat 0 k) = []).
+  { induction k as [|k IH]; [reflexivity|]. cbn [repeat flat_map enc_val app]. exact IH. }
+  unfold enc_run, run_type, run_vals. rewrite H. reflexivity.
+Qed.
+
+(* with remaining_in_run = 0 the stale value_type is irrelevant *)
+Lemma delta_iter_vt_irrel k vt vt' bs : delta_iter k 0 vt bs = delta_iter k 0 vt' bs.
+Proof. destruct k; [reflexivity|]. cbn [delta_iter Nat.eqb]. reflexivity. Qed.
+
+Lemma delta_iter_body t l : forall k rest, Forall (fits t) l ->
+  delta_iter (length l + k) (length l) t (flat_map (enc_val t) l ++ rest) = l ++ delta_iter k 0 t rest.
+Proof.
+  induction l as [|v l IH]; intros k rest HF.
+  - reflexivity.
+  - inversion HF as [|? ? Hv Hl]; subst.
+    cbn [length Nat.add flat_map]. rewrite <- app_assoc.
+    cbn [delta_iter Nat.eqb]. rewrite (read_enc_val t v _ Hv).
+    cbn [app]. f_equal. replace (S (length l) - 1)%nat with (length l) by lia.
+    apply IH. exact Hl.
+Qed.
+
+Lemma delta_iter_run r k vt rest : run_ok r ->
+  delta_iter (run_len r + k) 0 vt (enc_run r ++ rest) = run_vals r ++ delta_iter k 0 vt rest.
+Proof.
+  intros (Hlen & HF & Hl).
+  destruct (run_flag_decodes r Hlen) as (Hc & Ht & _).
+  rewrite enc_run_shape. cbn [app].
+  destruct (run_len r) as [|m] eqn:Em; [lia|].
+  cbn [Nat.add delta_iter Nat.eqb]. rewrite Hc, Ht.
+  (* the state after reading the control byte is the state of an iterator inside the run *)
+  pose proof (delta_iter_body (run_type r) (run_vals r) k rest HF) as Hb.
+  rewrite Hl in Hb. cbn [Nat.add delta_iter] in Hb.
+  replace (Nat.eqb (S m) 0) with false in Hb by reflexivity.
+  rewrite (delta_iter_vt_irrel k vt (run_type r)). exact Hb.
+Qed.
+
+Definition total_len (rs : list run) : nat := length (concat (map run_vals rs)).
+
+Lemma delta_iter_runs rs : forall k vt rest, Forall run_ok rs ->
+  delta_iter (total_len rs + k) 0 vt (flat_map enc_run rs ++ rest) = concat (map run_vals rs) ++ delta_iter k 0 vt rest.
+Proof.
+  induction rs as [|r rs IH]; intros k vt rest HF.
+  - reflexivity.
+  - inversion HF as [|? ? Hr Hrs]; subst.
+    unfold total_len. cbn [map concat flat_map]. rewrite app_length, <- !app_assoc.
+    destruct Hr as (Hlen & HFv & Hl). rewrite Hl.
+    rewrite <- Nat.add_assoc.
+    rewrite (delta_iter_run r _ vt _ (conj Hlen (conj HFv Hl))).
+    f_equal. apply IH. exact Hrs.
+Qed.
+
+(* ---------- count_all_deltas on written bytes ---------- *)
+Lemma count_all_runs rs : forall fuel, Forall run_ok rs -> (length (flat_map enc_run rs) <= fuel)%nat ->
+  count_all_deltas fuel (flat_map enc_run rs) = total_len rs.
+Proof.
+  induction rs as [|r rs IH]; intros fuel HF Hfuel.
+  - destruct fuel; reflexivity.
+  - inversion HF as [|? ? Hr Hrs]; subst.
+    destruct Hr as (Hlen & HFv & Hl).
+    destruct (run_flag_decodes r Hlen) as (Hc & Ht & _).
+    cbn [flat_map] in *. rewrite enc_run_shape in *. cbn [app length] in Hfuel.
+    destruct fuel as [|fuel]; [lia|]. cbn [app count_all_deltas].
+    rewrite Hc, Ht.
+    assert (Hbody : length (flat_map (enc_val (run_type r)) (run_vals r)) = (run_len r * rtype_size (run_type r))%nat).
+    { rewrite flat_enc_length, Hl. reflexivity. }
+    rewrite <- Hbody. rewrite skipn_app, skipn_all, Nat.sub_diag. cbn [app skipn].
+    rewrite IH; [|exact Hrs|rewrite app_length in Hfuel; lia].
+    unfold total_len. cbn [map concat]. rewrite app_length, Hl. reflexivity.
+Qed.
+
+(* ---------- the writer's run segmentation ---------- *)
+Lemma preferred_spec v : i32 v ->
+  match preferred_run_type v with
+  | RZero => v = 0
+  | RI8 => -128 <= v <= 127 /\ v <> 0
+  | RI16 => -32768 <= v <= 32767 /\ ~ (-128 <= v <= 127)
+  | RI32 => ~ (-32768 <= v <= 32767)
+  end.
+Proof.
+  intros H. unfold preferred_run_type.
+  destruct (v =? 0) eqn:E0; [lia|].
+  destruct ((32767 <? v) || (v <? -32768)) eqn:E1; [lia|].
+  destruct ((127 <? v) || (v <? -128)) eqn:E2; lia.
+Qed.
+
+Lemma preferred_fits v : i32 v -> fits (preferred_run_type v) v.
+Proof.
+  intros H. pose proof (preferred_spec v H) as S. destruct (preferred_run_type v); cbn [fits]; try lia. exact H.
+Qed.
+
+Lemma count_leading_zeros_spec cap l :
+  let n := count_leading_zeros cap l in
+  (n <= cap)%nat /\ (n <= length l)%nat /\ firstn n l = repeat 0 n.
+Proof.
+  revert l. induction cap as [|c IH]; intros l; cbn [count_leading_zeros].
+  - repeat split; try lia.
+  - destruct l as [|v r]; [repeat split; cbn; lia|].
+    destruct (v =? 0) eqn:E.
+    + destruct (IH r) as (A & B & C). cbn [length firstn repeat]. repeat split; try lia.
+      f_equal; [lia|exact C].
+    + repeat split; cbn; lia.
+Qed.
+
+Lemma run_scan_spec rt : rt <> RZero -> forall fuel l, Forall i32 l ->
+  let n := run_scan rt fuel l in
+  (n <= fuel)%nat /\ (n <= length l)%nat /\ Forall (fits rt) (firstn n l).
+Proof.
+  intros Hrt. induction fuel as [|f IH]; intros l HF; cbn [run_scan].
+  - repeat split; try lia. constructor.
+  - destruct l as [|cur tl]; [repeat split; try (cbn; lia); constructor|].
+    inversion HF as [|? ? Hc Ht]; subst.
+    destruct (stop_run rt (preferred_run_type cur) _) eqn:Es.
+    + repeat split; try (cbn; lia). constructor.
+    + destruct (IH tl Ht) as (A & B & C). cbn [length firstn]. repeat split; try lia.
+      constructor; [|exact C].
+      pose proof (preferred_spec cur Hc) as Sp.
+      destruct rt; [congruence| | |]; destruct (preferred_run_type cur); cbn [stop_run] in Es; cbn [fits];
+        try discriminate; try lia; try exact Hc.
+Qed.
+
+Lemma mk_run_facts t l : t <> RZero -> run_type (mk_run t l) = t /\ run_vals (mk_run t l) = l /\ run_len (mk_run t l) = length l.
+Proof. destruct t; intros H; try congruence; repeat split; reflexivity. Qed.
+
+Lemma iter_runs_spec : forall fuel ds, Forall i32 ds -> (length ds <= fuel)%nat ->
+  Forall run_ok (iter_runs fuel ds) /\ concat (map run_vals (iter_runs fuel ds)) = ds.
+Proof.
+  induction fuel as [|f IH]; intros ds HF Hlen.
+  - destruct ds; [|cbn in Hlen; lia]. split; [constructor|reflexivity].
+  - destruct ds as [|v tl]; [split; [constructor|reflexivity]|].
+    cbn [iter_runs]. inversion HF as [|? ? Hv Htl]; subst.
+    destruct (v =? 0) eqn:E0.
+    + pose proof (count_leading_zeros_spec MAX_DELTA_RUN (v :: tl)) as Hz. cbv zeta in Hz.
+      set (n := count_leading_zeros MAX_DELTA_RUN (v :: tl)) in *.
+      destruct Hz as (A & B & C).
+      assert (Hn1 : (1 <= n)%nat).
+      { subst n. unfold MAX_DELTA_RUN. cbn [count_leading_zeros]. rewrite E0. lia. }
+      destruct (IH (skipn n (v :: tl))) as (R1 & R2).
+      { apply Forall_forall. intros x Hx. rewrite Forall_forall in HF. apply HF.
+        rewrite <- (firstn_skipn n (v :: tl)). apply in_or_app. right. exact Hx. }
+      { rewrite skipn_length. cbn [length] in *. lia. }
+      split.
+      * constructor; [|exact R1].
+        unfold run_ok. cbn [run_len run_type run_vals]. unfold MAX_DELTA_RUN in A. repeat split; try lia.
+        -- apply Forall_forall. intros x Hx. apply repeat_spec in Hx. exact Hx.
+        -- apply repeat_length.
+      * cbn [map concat run_vals]. rewrite R2, <- C. apply firstn_skipn.
+    + assert (Hp : preferred_run_type v <> RZero).
+      { pose proof (preferred_spec v Hv) as Sp. destruct (preferred_run_type v); try discriminate. lia. }
+      unfold next_run_len.
+      pose proof (run_scan_spec (preferred_run_type v) Hp (MAX_DELTA_RUN - 1) tl Htl) as Hs. cbv zeta in Hs.
+      set (m := run_scan (preferred_run_type v) (MAX_DELTA_RUN - 1) tl) in *.
+      destruct Hs as (A & B & C).
+      destruct (IH (skipn (S m) (v :: tl))) as (R1 & R2).
+      { apply Forall_forall. intros x Hx. rewrite Forall_forall in HF. apply HF.
+        rewrite <- (firstn_skipn (S m) (v :: tl)). apply in_or_app. right. exact Hx. }
+      { rewrite skipn_length. cbn [length] in *. lia. }
+      destruct (mk_run_facts (preferred_run_type v) (firstn (S m) (v :: tl)) Hp) as (F1 & F2 & F3).
+      assert (Hfl : length (firstn (S m) (v :: tl)) = S m).
+      { rewrite firstn_length. cbn [length]. lia. }
+      split.
+      * constructor; [|exact R1].
+        unfold run_ok. rewrite F1, F2, F3, Hfl. unfold MAX_DELTA_RUN in A. repeat split; try lia.
+        cbn [firstn]. constructor; [apply preferred_fits; exact Hv|exact C].
+      * cbn [map concat]. rewrite F2, R2. apply firstn_skipn.
+Qed.
+
+Lemma delta_runs_spec ds : Forall i32 ds ->
+  Forall run_ok (delta_runs ds) /\ concat (map run_vals (delta_runs ds)) = ds.
+Proof. intros H. apply iter_runs_spec; [exact H|lia]. Qed.
+
+(* ---------- round trips ---------- *)
+Lemma packed_deltas_roundtrip_prefix ds rest : Forall i32 ds ->
+  decode_deltas_n (length ds) (encode_deltas ds ++ rest) = ds.
+Proof.
+  intros H. destruct (delta_runs_spec ds H) as (Hok & Hcat).
+  unfold decode_deltas_n, encode_deltas.
+  pose proof (delta_iter_runs (delta_runs ds) 0 RI8 rest Hok) as Hr.
+  unfold total_len in Hr. rewrite Hcat in Hr. rewrite Nat.add_0_r in Hr. rewrite Hr.
+  cbn [delta_iter]. apply app_nil_r.
+Qed.
+
+Lemma packed_deltas_count ds : Forall i32 ds ->
+  count_all_deltas (length (encode_deltas ds)) (encode_deltas ds) = length ds.
+Proof.
+  intros H. destruct (delta_runs_spec ds H) as (Hok & Hcat).
+  unfold encode_deltas. rewrite count_all_runs by (try exact Hok; lia).
+  unfold total_len. rewrite Hcat. reflexivity.
+Qed.
+
+Lemma packed_deltas_roundtrip ds : Forall i32 ds -> decode_deltas_all (encode_deltas ds) = ds.
+Proof.
+  intros H. unfold decode_deltas_all. rewrite packed_deltas_count by exact H.
+  rewrite <- (app_nil_r (encode_deltas ds)) at 1. apply packed_deltas_roundtrip_prefix. exact H.
+Qed.
+
+(* ---------- run legality and header consistency ---------- *)
+Lemma delta_run_lengths_legal ds : Forall i32 ds ->
+  Forall (fun r => (1 <= run_len r <= 64)%nat
+                   /\ count_of_control (run_flag r) = run_len r
+                   /\ rtype_of_control (run_flag r) = run_type r
+                   /\ 0 <= run_flag r < 256
+                   /\ Forall (fits (run_type r)) (run_vals r)) (delta_runs ds).
+Proof.
+  intros H. destruct (delta_runs_spec ds H) as (Hok & _).
+  eapply Forall_impl; [|exact Hok]. intros r (Hl & HF & _).
+  destruct (run_flag_decodes r Hl) as (A & B & C). repeat split; try assumption; lia.
+Qed.
+
+Lemma encode_deltas_bytes ds : Forall i32 ds -> Forall is_byte (encode_deltas ds).
+Proof.
+  intros H. destruct (delta_runs_spec ds H) as (Hok & _).
+  unfold encode_deltas. induction Hok as [|r rs Hr Hrs IH]; [constructor|].
+  cbn [flat_map]. apply Forall_app. split; [|exact IH].
+  rewrite enc_run_shape. destruct Hr as (Hl & _ & _).
+  destruct (run_flag_decodes r Hl) as (_ & _ & C). constructor; [exact C|].
+  induction (run_vals r); cbn [flat_map]; [constructor|]. apply Forall_app. split; [apply enc_val_bytes|assumption].
+Qed.
+
+(* ---------- compute_size ---------- *)
+Lemma sum_sizes_none sizes : fold_left (fun acc s => do a <- acc ;; chk_u 16 (a + s)) sizes None = None.
+Proof. induction sizes; [reflexivity|exact IHsizes]. Qed.
+
+Lemma sum_sizes_some sizes : forall start s,
+  sum_sizes_u16 start sizes = Some s -> s = start + fold_right Z.add 0 sizes.
+Proof.
+  unfold sum_sizes_u16. induction sizes as [|x xs IH]; intros start s H.
+  - cbn in *. inversion H. lia.
+  - cbn [fold_left fold_right obind] in *. unfold chk_u in H at 2.
+    destruct (in_u 16 (start + x)) eqn:E.
+    + apply IH in H. lia.
+    + rewrite sum_sizes_none in H. discriminate.
+Qed.
+
+Lemma sum_sizes_total sizes : forall start, 0 <= start -> Forall (fun x => 0 <= x) sizes ->
+  start + fold_right Z.add 0 sizes <= 65535 ->
+  sum_sizes_u16 start sizes = Some (start + fold_right Z.add 0 sizes).
+Proof.
+  unfold sum_sizes_u16. induction sizes as [|x xs IH]; intros start Hs HF Hb.
+  - cbn. f_equal. lia.
+  - inversion HF as [|? ? Hx Hxs]; subst. cbn [fold_left fold_right obind] in *.
+    assert (Hsum : 0 <= fold_right Z.add 0 xs).
+    { clear -Hxs. induction Hxs; cbn [fold_right]; lia. }
+    unfold chk_u at 2. unfold in_u. change (2 ^ 16) with 65536.
+    replace ((0 <=? start + x) && (start + x <? 65536)) with true by lia.
+    rewrite IH by (try assumption; lia). f_equal. lia.
+Qed.
+
+Lemma run_size_is_length r : run_ok r -> run_size r = Z.of_nat (length (enc_run r)).
+Proof.
+  intros (Hl & _ & Hv). rewrite enc_run_shape. cbn [length]. rewrite flat_enc_length, Hv.
+  destruct r; cbn [run_size run_type run_len rtype_size] in *; lia.
+Qed.
+
+Lemma sizes_sum_length rs : Forall run_ok rs ->
+  fold_right Z.add 0 (map run_size rs) = Z.of_nat (length (flat_map enc_run rs)).
+Proof.
+  induction 1 as [|r rs Hr Hrs IH]; [reflexivity|].
+  cbn [map fold_right flat_map]. rewrite app_length, IH, (run_size_is_length r Hr). lia.
+Qed.
+
+Lemma deltas_size_computed ds : Forall i32 ds ->
+  (forall s, deltas_compute_size ds = Some s -> s = Z.of_nat (length (encode_deltas ds)))
+  /\ (Z.of_nat (length (encode_deltas ds)) <= 65535 -> deltas_compute_size ds = Some (Z.of_nat (length (encode_deltas ds)))).
+Proof.
+  intros H. destruct (delta_runs_spec ds H) as (Hok & _).
+  unfold deltas_compute_size, encode_deltas. split.
+  - intros s Hs. apply sum_sizes_some in Hs. rewrite sizes_sum_length in Hs by exact Hok. lia.
+  - intros Hb. rewrite <- (sizes_sum_length _ Hok) in *.
+    rewrite sum_sizes_total; [reflexivity|lia| |lia].
+    apply Forall_forall. intros x Hx. apply in_map_iff in Hx. destruct Hx as (r & <- & _).
+    destruct r; cbn [run_size]; lia.
+Qed.
